@@ -1,27 +1,27 @@
 #!/bin/bash
-# validate_seed.sh <worktree> <n> : confirm that _seeded/change<n>.diff compiles, keeps the 79
+# validate_seed.sh <worktree> <n> : confirm that $SD/change<n>.diff compiles, keeps the 79
 # baseline tests passing (ui_tests failing as on the baseline), and that demo<n>.rs fails with
-# the change and passes without. Writes <worktree>/_seeded/validated<n>.txt
-WT=$1; N=$2
+# the change and passes without. Writes <worktree>/$SD/validated<n>.txt
+WT=$1; N=$2; SD=${3:-_seeded}
 cd "$WT" || exit 2
 export CARGO_NET_OFFLINE=true
-OUT=_seeded/validated$N.txt
+OUT=$SD/validated$N.txt
 : > $OUT
 git checkout -q -- . ; rm -f test_suite/tests/seeded_demo_*.rs
-cp _seeded/demo$N.rs test_suite/tests/seeded_demo_$N.rs
+cp $SD/demo$N.rs test_suite/tests/seeded_demo_$N.rs
 # demo on pristine
-cargo test --offline -p scale-info-test-suite --test seeded_demo_$N > _seeded/demo${N}_pristine.log 2>&1
+cargo test --offline -p scale-info-test-suite --test seeded_demo_$N > $SD/demo${N}_pristine.log 2>&1
 echo "demo_pristine_rc=$?" >> $OUT
-git apply _seeded/change$N.diff || { echo "apply_failed" >> $OUT; exit 1; }
+git apply $SD/change$N.diff || { echo "apply_failed" >> $OUT; exit 1; }
 cargo build --workspace --offline > /dev/null 2>&1; echo "build_ws_rc=$?" >> $OUT
 cargo build --offline --all-features > /dev/null 2>&1; echo "build_all_rc=$?" >> $OUT
 cargo build --offline --no-default-features > /dev/null 2>&1; echo "build_nodefault_rc=$?" >> $OUT
-cargo test --offline -p scale-info-test-suite --test seeded_demo_$N > _seeded/demo${N}_changed.log 2>&1
+cargo test --offline -p scale-info-test-suite --test seeded_demo_$N > $SD/demo${N}_changed.log 2>&1
 echo "demo_changed_rc=$?" >> $OUT
 rm -f test_suite/tests/seeded_demo_$N.rs
-cargo test --workspace --no-fail-fast --offline > _seeded/suite${N}_changed.log 2>&1
-passed=$(grep -E "^test result:" _seeded/suite${N}_changed.log | awk '{s+=$4} END{print s}')
-failed=$(grep -E "^test .* FAILED$" _seeded/suite${N}_changed.log | sort | tr '\n' ' ')
+cargo test --workspace --no-fail-fast --offline > $SD/suite${N}_changed.log 2>&1
+passed=$(grep -E "^test result:" $SD/suite${N}_changed.log | awk '{s+=$4} END{print s}')
+failed=$(grep -E "^test .* FAILED$" $SD/suite${N}_changed.log | sort | tr '\n' ' ')
 echo "suite_passed=$passed" >> $OUT
 echo "suite_failed=$failed" >> $OUT
 git checkout -q -- .
